@@ -363,3 +363,13 @@ def feature_table(n, boundary_only=False):
     tab += [("CDS", p) for p in join_menu(n)]
     tab += whole_length(n)
     return tab
+
+
+def prime(classes=None):
+    """Give every class its own compiled pattern (so that typing does not depend on what was
+    typed before -- history effects are C06's business).  Returns the classes."""
+    from moclo.regex import DNARegex
+    classes = list(classes) if classes is not None else kit_classes()
+    for c in classes:
+        c._regex = DNARegex(c.structure())
+    return classes
